@@ -590,6 +590,19 @@ pub fn f5() -> Fragment {
         fun("at", &["u", "s"], rel(var("u"), vec![app("rd", vec![var("s")])])),
         Stmt::Res(app("at", vec![uri_lit(&["a"]), num()])),
     ]);
+    // a global declaration with a rec binder named like the parameter of a function that uses
+    // the declaration before its own parameter
+    all_orders(vec![
+        let_("list", E::Rec("x".into(), Box::new(arr(var("x"))))),
+        fun("page", &["x"], obj(vec![prop("related", var("list")), prop("item", var("x"))])),
+        get(content(app("page", vec![str_()]))),
+    ]);
+    all_orders(vec![
+        let_("list", E::Rec("x".into(), Box::new(obj(vec![prop("next", var("x"))])))),
+        fun("inner", &["y"], obj(vec![prop("l", var("list")), prop("y", var("y"))])),
+        fun("outer", &["x"], obj(vec![prop("i", app("inner", vec![num()])), prop("x", var("x"))])),
+        get(content(app("outer", vec![str_()]))),
+    ]);
     // rec binder shadows a parameter and a declaration
     all_orders(vec![
         let_("x", num()),
